@@ -31,6 +31,10 @@ type IOEvent struct {
 	Page int32
 	Data []byte
 	Mark string
+	// Off: where a log write landed in the log file (observed through the file size before and after the
+	// call: the disk manager's file position is its own business). -1 = appended at the end, as the crash
+	// model assumes; >= 0 = the write left a gap of zeroes / landed inside the file.
+	Off int64
 }
 
 type Recorder struct {
@@ -47,10 +51,21 @@ func (r *Recorder) WritePage(id types.PageID, data []byte) error {
 }
 
 func (r *Recorder) WriteLog(data []byte) error {
-	if r.On && len(data) > 0 {
-		r.Events = append(r.Events, IOEvent{Kind: 'L', Data: append([]byte{}, data...)})
+	if !r.On || len(data) == 0 {
+		return r.DiskManager.WriteLog(data)
 	}
-	return r.DiskManager.WriteLog(data)
+	before := r.DiskManager.GetLogFileSize()
+	err := r.DiskManager.WriteLog(data)
+	after := r.DiskManager.GetLogFileSize()
+	off := int64(-1)
+	if after-int64(len(data)) != before {
+		off = after - int64(len(data)) // not a plain append
+		if after == before {
+			off = -2 // landed inside the file: position unknown to the recorder
+		}
+	}
+	r.Events = append(r.Events, IOEvent{Kind: 'L', Data: append([]byte{}, data...), Off: off})
+	return err
 }
 
 func (r *Recorder) GCLogFile() error {
@@ -157,6 +172,9 @@ func (im *Image) apply(ev *IOEvent, cut int) {
 		data := ev.Data
 		if cut >= 0 && cut < len(data) {
 			data = data[:cut]
+		}
+		if ev.Off > int64(len(im.Log)) {
+			im.Log = append(im.Log, make([]byte, ev.Off-int64(len(im.Log)))...) // the gap the write left
 		}
 		im.Log = append(im.Log, data...)
 	case 'G':
@@ -736,6 +754,7 @@ func (hr *HistoryRun) KindList() string {
 // ---- recovery of one image ----------------------------------------------------------------------------
 
 type Recovered struct {
+	AfterOpen *Image // files right after NewSamehadaDB returned (only when the recovery was recorded)
 	Fail    *Failure        // restart did not return normally
 	Scan    map[string]Rows // table -> full scan
 	Index   map[string]Rows // table -> rows through an index range scan over the whole key domain
@@ -769,6 +788,7 @@ func Recover(im *Image, tables []TableDef, memKB int, probe *ProbeSpec, record b
 		db, out.Rec, f = OpenRecorded(path, memKB, true)
 		if out.Rec != nil {
 			out.Rec.On = false
+			out.AfterOpen = readImage(path) // conformance of the recorded recovery trace
 		}
 	} else {
 		db, f = OpenDB(path, memKB)
